@@ -81,6 +81,20 @@ def _dump(src):
 
 _STMT_BY_DUMP = {_dump(v): k for k, v in STMTS.items()}
 _MEM_BY_DUMP = {_dump(v): "C." + k for k, v in MEMBERS.items()}
+_MEMN_BY_DUMP = {}       # filled below (MEMBERS_NESTED is defined after _dump)
+
+
+def inside(kind, ctx):
+    """Is the definition of this kind a member of a class in this context?  method: `C.f`; nested: `Outer.ConfigClass`."""
+    return (kind == "function" and ctx == "method") or (kind == "class" and ctx == "nested")
+
+
+CONTAINER = {"function": "C", "class": "Outer"}
+MEMBERS_NESTED = {"m1": "limit: int = 3", "m2": "def g(self, epochs):\n    return epochs", "m3": "class BaseConfigClass(object):\n    size: int = 1",
+                  "m4": "ConfigClass = ConfigClass"}
+
+
+_MEMN_BY_DUMP.update({_dump(v): "C." + k for k, v in MEMBERS_NESTED.items()})
 
 
 def _indent(src, n=4):
@@ -150,10 +164,11 @@ def build_file(kind, st, ctx):
     mem_a = [x[2:] for x in st["a"] if x.startswith("C.")]
     parts = [STMTS[x] for x in top_b]
     d = None if st["d"] == "absent" else definition_text(kind, st["d"], ctx, st.get("canon", True))
-    if kind == "function" and ctx == "method":
-        members = [MEMBERS[x] for x in mem_b] + ([d] if d is not None else []) + [MEMBERS[x] for x in mem_a]
+    if inside(kind, ctx):
+        mem = MEMBERS if kind == "function" else MEMBERS_NESTED
+        members = [mem[x] for x in mem_b] + ([d] if d is not None else []) + [mem[x] for x in mem_a]
         if st.get("has_class", True):
-            parts.append("class C(object):\n" + ("\n\n".join(_indent(m) for m in members) if members else "    pass"))
+            parts.append("class %s(object):\n" % CONTAINER[kind] + ("\n\n".join(_indent(m) for m in members) if members else "    pass"))
     elif d is not None:
         parts.append(d)
     parts += [STMTS[x] for x in top_a]
@@ -232,17 +247,18 @@ def observe(path, kind, ctx):
 
     want_type = ast.ClassDef if kind == "class" else ast.FunctionDef
     want_name = NAMES.get(kind, "f")
+    mem_table = _MEM_BY_DUMP if kind == "function" else _MEMN_BY_DUMP
     for st in tree.body:
-        if kind == "function" and ctx == "method" and isinstance(st, ast.ClassDef) and st.name == "C":
+        if inside(kind, ctx) and isinstance(st, ast.ClassDef) and st.name == CONTAINER[kind]:
             for m in st.body:
-                if isinstance(m, ast.FunctionDef) and m.name == "f" and not seen:
+                if isinstance(m, want_type) and m.name == want_name and not seen:
                     seen, d = True, _version(kind, m)
                 elif isinstance(m, ast.Pass) and len(st.body) == 1:
                     continue
                 else:
-                    (a if seen else b).append(ident(m, _MEM_BY_DUMP, "C."))
+                    (a if seen else b).append(ident(m, mem_table, "C."))
             continue
-        if isinstance(st, want_type) and st.name == want_name and not seen and not (kind == "function" and ctx == "method"):
+        if isinstance(st, want_type) and st.name == want_name and not seen and not inside(kind, ctx):
             seen, d = True, _version(kind, st)
             continue
         (a if seen else b).append(ident(st, _STMT_BY_DUMP))
@@ -283,15 +299,15 @@ def spelled(root, spell):
     return root
 
 
-def run_sync(root, truth, given, ctx, fault=None, via_cli=False, spell="plain", twin=False, hashseed=0):
+def run_sync(root, truth, given, ctx, fault=None, via_cli=False, spell="plain", twin=False, hashseed=0, twin_kind=None):
     """One invocation.  Returns dict(exc, report, printed, status).  twin: a second file of the truth's kind exists."""
     paths = _paths(spelled(root, spell), twin)      # what the command line says
     FILES = KINDS + (("twin",) if twin else ())
     fname = "C.f" if ctx == "method" else "f"
-    names = {"argparse": "set_cli_args", "class": "ConfigClass", "function": fname}
+    names = {"argparse": "set_cli_args", "class": ("Outer.ConfigClass" if ctx == "nested" else "ConfigClass"), "function": fname}
 
     def files_of(k):     # the truth file first (the command line's first file of the truth's kind is the truth)
-        return [paths[k]] + ([paths["twin"]] if twin and k == truth and "twin" in given else [])
+        return [paths[k]] + ([paths["twin"]] if twin and k == (twin_kind or truth) and "twin" in given else [])
 
     if via_cli:
         argv = ["sync", "--truth", NS_KEY[truth]]
@@ -440,7 +456,16 @@ def _run_history(h):
         init_obs = {k: observe(paths[k], kind_of[k], ctx) for k in FILES}
         events, concrete = [], []
         cur_truth_state = dict(h["init"][h["truth"]])
+        cur_truth = h["truth"]
         for step_no, step in enumerate(h["steps"]):
+            if isinstance(step, (list, tuple)) and step[0] == "truth":
+                # from now on another of the named files is the truth (no invocation by itself) - provided the last invocation
+                # brought it into agreement (Sync.tla: SwitchTruth needs `synced`); otherwise the history goes on as it was
+                o_new, o_old = observe(paths[step[1]], step[1], ctx), observe(paths[cur_truth], cur_truth, ctx)
+                if o_new["d"] in SIG and o_new["d"] == o_old["d"]:
+                    cur_truth = step[1]
+                concrete.append({"a": "truth", "to": cur_truth})
+                continue
             before = {k: _digest(paths[k]) for k in FILES}
             if step == "edit":
                 other = "v2" if observe(paths[h["truth"]], h["truth"], ctx)["d"] == "v1" else "v1"
@@ -452,9 +477,9 @@ def _run_history(h):
             fault = None
             if isinstance(step, (list, tuple)) and step[0] == "fault":
                 fault = tuple(step[1:])
-            res = run_sync(root, h["truth"], h["given"], ctx, fault=fault, via_cli=(step == "sync_cli"), spell=h.get("spell", "plain"), twin=twin, hashseed=(step_no * 7 + 1) % 11)
+            res = run_sync(root, cur_truth, h["given"], ctx, fault=fault, via_cli=(step == "sync_cli"), spell=h.get("spell", "plain"), twin=twin, hashseed=(step_no * 7 + 1) % 11, twin_kind=h["truth"])
             after = {k: _digest(paths[k]) for k in FILES}
-            ev = {"a": "sync", "exc": res["exc"], "fault": ("none" if not fault else ":".join(map(str, fault))),
+            ev = {"a": "sync", "truth": cur_truth, "exc": res["exc"], "fault": ("none" if not fault else ":".join(map(str, fault))),
                   "post": {k: observe(paths[k], kind_of[k], ctx) for k in FILES},
                   "changed": {k: before[k] != after[k] for k in FILES}, "report": res["report"], "printed": res["printed"]}
             if step == "sync_cli":
@@ -480,7 +505,7 @@ def _run_history(h):
 def pre_states(kind, ctx, rnd, rich):
     """Abstract pre-states of a *target* file (Sync.tla: PreStates, refined with frames and newline)."""
     frames = [([], []), (["s1"], []), (["s1", "s2"], ["t1"]), (["s4", "s5", "s6"], ["t3"]), (["s3"], ["t2"])]
-    if kind == "function" and ctx == "method":
+    if inside(kind, ctx):
         frames = [([], []), (["s1", "C.m1"], ["C.m2"]), (["s2", "C.m1"], ["C.m2", "t1"]), (["s6", "C.m3"], ["C.m2", "t3"]), ([], ["C.m2"])]
     out = [{"st": "missing"}, {"st": "empty"}]
     for b, a in (frames if rich else frames[:4]):
@@ -490,16 +515,16 @@ def pre_states(kind, ctx, rnd, rich):
     out.append({"st": "mod", "b": frames[1][0], "d": "absent", "a": [], "nl": False})
     out.append({"st": "mod", "b": ["s3"], "d": "absent", "a": [], "nl": "space"})
     out.append({"st": "mod", "b": frames[1][0], "d": "absent", "a": [], "nl": "indent"})
-    if not (kind == "function" and ctx == "method"):
+    if not inside(kind, ctx):
         out.append({"st": "mod", "b": ["s0", "s1"], "d": "v1", "a": ["t1"], "canon": True, "nl": True})
         out.append({"st": "mod", "b": ["s0"], "d": "v2", "a": [], "canon": True, "nl": True})
         out.append({"st": "mod", "b": ["s0", "s3"], "d": "absent", "a": [], "nl": True})
     out.append({"st": "mod", "b": frames[1][0], "d": "v1", "a": frames[1][1], "canon": False, "nl": True})
     # the name is bound again after the definition: the definition is the first binding
-    rebind = {"class": ["r1"], "argparse": ["r2"], "function": (["C.m4"] if ctx == "method" else ["r3"])}[kind]
+    rebind = ["C.m4"] if inside(kind, ctx) else {"class": ["r1"], "argparse": ["r2"], "function": ["r3"]}[kind]
     for d in ("v1", "v2"):
-        out.append({"st": "mod", "b": frames[1][0], "d": d, "a": rebind + (["t1"] if ctx != "method" or kind != "function" else []), "canon": True, "nl": True})
-    if kind == "function" and ctx == "method":
+        out.append({"st": "mod", "b": frames[1][0], "d": d, "a": rebind + ([] if inside(kind, ctx) else ["t1"]), "canon": True, "nl": True})
+    if inside(kind, ctx):
         out.append({"st": "mod", "b": ["s1"], "d": "absent", "a": [], "nl": True, "has_class": False})
     for s in out:
         s.setdefault("b", [])
@@ -509,7 +534,7 @@ def pre_states(kind, ctx, rnd, rich):
 
 
 def truth_states(kind, ctx):
-    fr = (["s1"], ["t1"]) if not (kind == "function" and ctx == "method") else (["s1", "C.m1"], ["C.m2"])
+    fr = (["s1"], ["t1"]) if not inside(kind, ctx) else (["s1", "C.m1"], ["C.m2"])
     return [{"st": "mod", "b": [], "d": "v1", "a": [], "canon": True, "nl": True},
             {"st": "mod", "b": fr[0], "d": "v2", "a": fr[1], "canon": False, "nl": True},
             {"st": "mod", "b": fr[0], "d": "v1", "a": fr[1], "canon": False, "nl": True}]
@@ -519,16 +544,19 @@ def histories(prop, thorough, rnd):
     hs = []
     shapes = {
         "C09": [["sync"], ["sync_cli"]],
-        "C10": [["sync", "sync"], ["sync", "sync", "edit", "sync", "sync"], ["sync_cli", "sync_cli"], ["sync", "edit", "sync"]],
+        "C10": [["sync", "sync"], ["sync", "sync", "edit", "sync", "sync"], ["sync_cli", "sync_cli"], ["sync", "edit", "sync"],
+                ["sync", "sync", ("truth", "NEXT"), "sync", "sync"]],
         "C11": [["sync"], ["sync", "sync"]],
     }[prop]
     n_per = 40 if thorough else 8
     for truth in KINDS:
         for given in ([KINDS] + [[truth, k] for k in KINDS if k != truth]):
-            for ctx in ("top", "method"):
+            for ctx in ("top", "method", "nested"):
                 ts = truth_states(truth, ctx)
                 for shape in shapes:
                     if "sync_cli" in shape and not thorough and rnd.random() < 0.6:
+                        continue
+                    if any(isinstance(x, tuple) for x in shape) and not thorough and rnd.random() < 0.5:
                         continue
                     combos = []
                     targets = [k for k in KINDS if k != truth]
@@ -542,7 +570,10 @@ def histories(prop, thorough, rnd):
                     rnd.shuffle(combos)
                     for c in combos:
                         init = {truth: rnd.choice(ts), targets[0]: c[0], targets[1]: c[1]}
-                        hs.append({"truth": truth, "given": list(given), "ctx": ctx, "init": init, "steps": list(shape)})
+                        # ("truth", "NEXT"): another of the given kinds becomes the truth for the following invocations
+                        nxt = [k for k in given if k != truth][len(hs) % (len(given) - 1)]
+                        hs.append({"truth": truth, "given": list(given), "ctx": ctx, "init": init,
+                                   "steps": [(("truth", nxt) if isinstance(x, tuple) else x) for x in shape]})
     if prop == "C10":
         # separate interpreters (different string hashing) and a truth that documents names which are not parameters:
         # what the first run wrote must be what the next runs would write
@@ -557,7 +588,7 @@ def histories(prop, thorough, rnd):
     if not thorough:
         keep = 700 if prop != "C10" else 450
 
-        def special(h):     # rare shapes are always kept: module docstring, unterminated last line, hand-written, class missing
+        def special(h):     # rare shapes are always kept (and a share of the histories that alternate the truth): module docstring, unterminated last line, hand-written, class missing
             return any(("s0" in st.get("b", [])) or st.get("docextra") or st.get("nl", True) is not True or st.get("canon", True) is False or st.get("has_class", True) is False
                        or any(x in ("r1", "r2", "r3", "C.m4") for x in st.get("a", []))
                        for st in h["init"].values())
@@ -622,12 +653,16 @@ def feat_of(trace, hist, step, clause, kind):
     for ev in trace["ev"][: step - 1]:
         cur = ev["post"]
     ctx = hist["ctx"]
+    ev_steps = [x for x in hist["steps"] if not (isinstance(x, (list, tuple)) and x[0] == "truth")]     # steps that produce an event
+    tr_kind = e.get("truth", trace["truth"])        # the truth of *this* invocation (alternating truth kinds)
+    trace = dict(trace, truth=tr_kind)
     f = {"k": "sync", "cl": clause, "truth": trace["truth"], "ngiven": len(trace["given"]), "ctx": ctx, "target": kind,
          "fault": e.get("fault", "none").split(":")[0] if e.get("fault", "none") != "none" else "none",
-         "exc": e.get("exc", "none"), "step": step, "via": hist["steps"][step - 1] if isinstance(hist["steps"][step - 1], str) else "fault", "comps": []}
+         "exc": e.get("exc", "none"), "step": step, "via": ev_steps[step - 1] if isinstance(ev_steps[step - 1], str) else "fault", "comps": [],
+         "switched": tr_kind != hist["truth"]}
     f["twin"] = kind == "twin"
     if kind == "twin":
-        f["target"] = trace["truth"]          # a second file of the truth's kind: judged like any target of that kind
+        f["target"] = hist["truth"]           # a second file of the (first) truth's kind: judged like any target of that kind
     if kind in KINDS or kind == "twin":
         b, a = cur[kind], e["post"][kind]
         f.update(pre=b["st"] if b["st"] != "mod" else ("mod-" + ("absent" if b["d"] == "absent" else ("agree" if b["d"] == cur[trace["truth"]]["d"] else "stale"))),
